@@ -36,7 +36,7 @@ class Transfer:
             self.timeout = rng.choice([65535, 65536, 70000, 131072 + 5])     # the API takes a 32-bit timeout in ms
         nsteps = 1 if self.size <= 4 else 1 + (self.size + 6) // 7
         self.nsteps = nsteps
-        self.behaviour = rng.choice(["ok"] * 6 + ["abort", "abort", "silent", "late", "toggle", "mux", "kind", "early", "oversize", "race", "race", "nmtreset", "nosize", "stale-answer"])
+        self.behaviour = rng.choice(["ok"] * 6 + ["abort", "abort", "silent", "late", "toggle", "mux", "kind", "early", "oversize", "race", "race", "nmtreset", "nosize", "stale-answer", "stopped"])
         self.race_n = self.timeout + rng.choice([-1, 0, 0, 0, 1, 3])
         self.abort_code = rng.choice([0x06020000, 0x05040000, 0x05040000, 0x06010002, 0x08000000, 0x06070010, 0x05030000, 0x00000001, 0xFFFFFFFF])
         self.k = rng.randrange(nsteps)
@@ -159,6 +159,21 @@ def run_sequence(res, exe, rng, first, forced=None):
                         return fail("request-frame/reset-during-transfer", desc + ": frames at the reset %r" % [("%x" % c, d.hex()) for _, c, d in fr])
                     res.counters["resets_during_transfer"] += 1
                     done = cb[0][3]
+                    break
+                if beh == "stopped":
+                    # the node is stopped while the transfer waits for its answer: the timeout still completes the transfer (once), but
+                    # a stopped node sends nothing except heartbeats - no abort frame
+                    sim.rx(0, bytes([2, nid]))
+                    evs = sim.cmd("tick %d" % (tr.timeout + 3))
+                    cb, fr = callbacks(evs), frames(evs)
+                    sim.rx(0, bytes([128, nid]))
+                    if [(c[3], c[4]) for c in cb] != [(TIMEOUT_CODE, last_req_tick + tr.timeout)]:
+                        return fail("timeout/callback-stopped", desc + ": node stopped at step %d: callbacks %r, reference one with 0504 0000h at tick %d" % (step, cb, last_req_tick + tr.timeout))
+                    # (whether the abort frame may still go out in STOPPED is the business of C09, which checks it)
+                    if [x for x in fr if not (x[1] == TX and x[2] == bytes([0x80]) + m3 + TIMEOUT_CODE.to_bytes(4, "little"))]:
+                        return fail("timeout/frame-in-stopped", desc + ": the stopped node transmitted %r" % [("%x" % c, d.hex()) for _, c, d in fr])
+                    res.counters["timeouts_in_stopped"] += 1
+                    done = TIMEOUT_CODE
                     break
                 if beh == "stale-answer" and step == 0:
                     # the answer to an earlier (timed-out) request for another object arrives first: it is not the answer to this request
